@@ -88,6 +88,14 @@ func (rl *Shell) Readline() (string, error) {
 		// the macro engine has fed some keys in bulk when running one.
 		core.WaitAvailableKeys(rl.Keys, rl.Config)
 
+		// The terminal input might be closed or failing: nothing more can be
+		// read, so return the line as it is, along with the read error.
+		if err := core.InputError(rl.Keys); err != nil {
+			rl.Display.AcceptLine()
+
+			return string(*rl.line), err
+		}
+
 		// 1 - Local keymap (Completion/Isearch/Vim operator pending).
 		bind, command, prefixed := keymap.MatchLocal(rl.Keymap)
 		if prefixed {
